@@ -5,6 +5,7 @@ from props.common import *
 from props import dwtfam
 
 ID = 'C19'
+GRAD_MODES = True
 PROPS_MODULE = 'Props.C19'
 THEOREMS = ['C19_kernel_factorises', 'C19_analysis_zero', 'C19_analysis_sym_reflect', 'C19_analysis_per', 'C19_synthesis', 'C19_synthesis_per']
 VO = ['theories/Props/C19.vo', 'theories/Run/RunDwt.vo']
